@@ -106,9 +106,10 @@ class C18(Prop):
         "output ports; GraphMapper's add/move_token_to_root/replace_token/remove_port keep both graphs mirror-consistent, "
         "token_availability and token_instances with the same keys and every listed token under its own single port. "
         "Engine level (exercised, not proved): real workflows (scatter/gather and pipelines) run on the local deployment "
-        "with an injected soft or data-losing failure and real RollbackFailureManager recovery; every job executed more "
-        "than once must be the failing job or have its job token in the model's recovery graph computed from the "
-        "provenance dumped from the real database with independently recorded availability. "
+        "with injected soft or data-losing failures (also two concurrent ones sharing a producer of lost data) and real "
+        "RollbackFailureManager recovery; every job executed more than once must be a failing job or have its job token in "
+        "the model's recovery graph computed from the provenance dumped from the real database with independently "
+        "recorded availability, and may run at most once more per distinct lost token made by it. "
         "PARTIAL: no theorem that create_graph_mapper copies the graph edge by edge, nor about _update_token's effect on "
         "the token graph when two tokens are 'equal' (compared with the real classes instead); _synchronize_workflows, "
         "_populate_workflow, _inject_tokens and Step.restore are exercised by the engine runs only.")
@@ -121,8 +122,9 @@ class C18(Prop):
         "scenarios are a handful of shapes, not a quantification over programs. No axioms.")
     TECHNIQUE = ("Coq proof (BFS invariants over the explicit frontier/queue, key-set monotonicity of the mapper) + vm_compute "
                  "correspondence against the real classes + real recovered runs judged against the model's permitted set")
-    RULE = ("engine: 4 (quick) / 10 (thorough) real recovered runs: scatter(11..13 or 21 wide)->job->gather->job and 3-job "
-            "pipelines, failure in the scattered or a later job, soft or deleting the files behind the failing job's inputs "
+    RULE = ("engine: 5 (quick) / 11 (thorough) real recovered runs: scatter(11..13 or 21 wide)->job->gather->job, 3-job "
+            "pipelines and a fork (two consumers of the gathered list failing together after losing one scattered output, "
+            "so that two recoveries overlap); failure in the scattered or a later job, soft or deleting the files behind the failing job's inputs "
             "1..3 provenance levels up, one or two failures; plan: layered workflows (2..5 layers, 1..3 steps per layer, "
             "job steps with a private job port fed by a schedule step, 1..3 tags), random availability / recovering flags, "
             "failed job = a job step and tag; some with duplicate ('re-executed') tokens, some soft failures, some "
@@ -268,6 +270,9 @@ class C18(Prop):
             {"shape": "scatter", "width": rng.choice([3, 4, 6]),
              "fail": {"step": "/b", "tag": "0.1", "kind": "loss", "times": 1, "depth": 1, "wait_siblings": None}},
         ]
+        scen.append({"shape": "fork", "width": rng.choice([3, 4, 5]),
+                     "fail": {"steps": ["/c", "/d"], "step": "/c", "tag": "0", "kind": "lose_job",
+                              "lose_job": f"/b/0.{rng.choice([0, 1, 2])}", "times": 1, "barrier": 2}})
         if tier != "quick":
             scen += [
                 {"shape": "scatter", "width": 21, "fail": {"step": "/b", "tag": "0.20", "kind": "loss", "times": 1, "depth": 1,
@@ -393,7 +398,8 @@ class C18(Prop):
         for e in o["events"]:
             db = [{"id": t["id"], "port_id": t["port_id"], "port": num(ports, t["pname"]), "tag": num(tags, t["tag"]),
                    "tagstr": t["tag"], "job": None if t["jobname"] is None else num(jobs, t["jobname"]),
-                   "jobname": t["jobname"], "avail": t["avail"], "recovering": t["recovering"], "deps": t["deps"]}
+                   "jobname": t["jobname"], "avail": t["avail"], "missing": t.get("missing", False),
+                   "recovering": t["recovering"], "deps": t["deps"]}
                   for t in e["db"]]
             evs.append({"inputs": e["inputs"], "db": db, "graph": e["graph"]})
         want = [f"element {i}\n" for i in range(c["width"])]
@@ -457,32 +463,48 @@ class C18(Prop):
         return None
 
     def _engine_facts(self, c, o):
-        """(failed job name, {re-executed job: count}, permitted job names) -- permitted from the property text:
-        jobs whose job token is a provenance ancestor, reached through lost tokens only, of the inputs of a failed job"""
-        failed = None if not c["fail"] else f"{c['fail']['step']}/{c['fail']['tag']}"
-        permitted = set()
+        """(failed job names, {re-executed job: count}, permitted job names, {job: number of distinct lost tokens made
+        from its job token}) -- from the property text: a job may run again if it failed, or if a token made from its
+        job token is lost and is a provenance ancestor, reached through lost tokens only, of the inputs of a failed job"""
+        failed = set()
+        if c["fail"]:
+            failed = {f"{st}/{c['fail']['tag']}" for st in (c["fail"].get("steps") or [c["fail"]["step"]])}
+        permitted, lost_out = set(), {}
         for e in o["events"]:
             tok = {t["id"]: t for t in e["db"]}
-            for x in _reach_through_lost(tok, e["inputs"]):
+            reach = _reach_through_lost(tok, e["inputs"])
+            for x in reach:
                 if tok[x]["jobname"] is not None:
                     permitted.add(tok[x]["jobname"])
+                t = tok[x]
+                if t["missing"]:          # data really gone (not merely a never-recoverable copy)
+                    for p in t["deps"]:
+                        if p in tok and tok[p]["jobname"] is not None and t["jobname"] is None:
+                            lost_out.setdefault(tok[p]["jobname"], set()).add(x)
         rerun = {j: n for j, n in o["counts"].items() if n > 1}
-        return failed, rerun, permitted
+        return failed, rerun, permitted, lost_out
 
     def _engine_oracle(self, c, o):
         if o["status"] != "COMPLETED" or not o["result_ok"]:
             return ("engine-run", f"recovered run ended {o['status']}, result correct: {o['result_ok']}")
-        failed, rerun, permitted = self._engine_facts(c, o)
+        failed, rerun, permitted, lost_out = self._engine_facts(c, o)
         times = c["fail"]["times"] if c["fail"] else 0
-        if failed is not None and o["counts"].get(failed, 0) != times + 1:
-            return ("failed-job-count", f"{failed} failed {times} time(s) but ran {o['counts'].get(failed, 0)} times")
+        for f in sorted(failed):
+            if o["counts"].get(f, 0) != times + 1:
+                return ("failed-job-count", f"{f} failed {times} time(s) but ran {o['counts'].get(f, 0)} times")
         for j, n in sorted(rerun.items()):
-            if j != failed and j not in permitted:
-                return ("rerun-not-permitted", f"job {j} ran {n} times although it is not the failing job {failed} and is "
-                                               f"not a producer of lost data needed by it (permitted: {sorted(permitted)})")
-            if j != failed and n > 1 + len(o["events"]):
-                return ("rerun-too-often", f"job {j} ran {n} times for {len(o['events'])} recovery plan(s)")
-        if failed is None and rerun:
+            if j in failed:
+                continue
+            if j not in permitted:
+                return ("rerun-not-permitted", f"job {j} ran {n} times although it is not a failing job {sorted(failed)} and "
+                                               f"is not a producer of lost data needed by one (permitted: {sorted(permitted)})")
+            # data made by the job was lost len(lost_out[j]) times (distinct lost tokens, however many recoveries
+            # needed them): that many re-executions are justified, not one per recovery
+            losses = len(lost_out.get(j, ()))
+            if n > 1 + max(losses, 1):
+                return ("rerun-too-often", f"job {j} ran {n} times but only {losses} token(s) made by it were lost "
+                                           f"(needed by {len(o['events'])} recovery plan(s))")
+        if not failed and rerun:
             return ("rerun-without-failure", f"jobs re-executed without any failure: {rerun}")
         return None
 
@@ -511,7 +533,7 @@ class C18(Prop):
             return None
         ns = lambda l: coq_list([coq_N(x) for x in l])
         if c["f"] == "engine":
-            failed, rerun, _ = self._engine_facts(c, o)
+            failed, rerun, _, _ = self._engine_facts(c, o)
             evs = []
             for e in o["events"]:
                 g = e["graph"]
@@ -521,7 +543,7 @@ class C18(Prop):
                 evs.append(f"({coq_list([self._tok(t) for t in e['db']])}, {ns(e['inputs'])}, {bt})")
             ids = []
             for j in sorted(rerun):
-                if j != failed:
+                if j not in failed:
                     ids.append(ns(sorted({t["id"] for e in o["events"] for t in e["db"] if t["jobname"] == j})))
             return f"CEngine {coq_list(evs)} {coq_list(ids)}"
         if c["f"] == "plan":
